@@ -11,8 +11,8 @@ RULE = ("Hypothesis generates a point of the layout lattice: mount table (home o
         "volume, 0-3 extra volumes, nested), state of $topdir/.Trash {absent, sticky, non-sticky, "
         "symlink->sticky, symlink->non-sticky, file, setgid, setuid, a sticky MOUNT POINT}, of "
         "$topdir/.Trash/$uid {absent, dir, file, symlink to another volume, symlink within the volume}, of "
-        "$topdir/.Trash-$uid {absent, dir, file, symlink to another volume}, home trash {absent, "
-        "existing, symlink to another volume}, HOME reached through a symlink that may cross volumes, XDG_DATA_HOME {unset, empty, custom, on another "
+        "$topdir/.Trash-$uid {absent, dir, file, symlink to another volume, a mount point}, home trash {absent, "
+        "existing, symlink to another volume, a mount point}, HOME reached through a symlink that may cross volumes, XDG_DATA_HOME {unset, empty, custom, on another "
         "volume}, HOME set/unset, uid, umask, options {none, --trash-dir on/off the file's volume, "
         "--home-fallback x TRASH_ENABLE_HOME_FALLBACK}, and an entry reached directly, through a "
         "symlinked parent that crosses volumes, or as 'link/' to a directory on another volume. "
@@ -65,8 +65,8 @@ def strategy_(draw, tier):
             "fvol": fvol,
             "top": draw(st.sampled_from(gen.TOP_STATES + ["sticky", "mount_sticky"])),
             "uid_state": draw(st.sampled_from(["absent", "absent", "dir", "file", "link_other", "link_same"])),
-            "alt": draw(st.sampled_from(["absent", "absent", "dir", "file", "link_other"])),
-            "hometrash": draw(st.sampled_from(["absent", "absent", "exists", "link_other"])),
+            "alt": draw(st.sampled_from(["absent", "absent", "dir", "file", "link_other", "mount"])),
+            "hometrash": draw(st.sampled_from(["absent", "absent", "exists", "link_other", "mount"])),
             "xdg": draw(st.sampled_from(["unset", "unset", "unset", "empty", "custom", "othervol", "custom_slash"])),
             "home_slash": draw(st.integers(0, 5)) == 0,
             # $HOME names the home directory through a symlink (/hl -> /home) that may cross volumes:
@@ -170,6 +170,11 @@ def run_case(case):
         if case["hometrash"] == "exists":
             nodes.append({"p": ht + "/files", "t": "d", "m": 0o700})
             nodes.append({"p": ht + "/info", "t": "d", "m": 0o700})
+        elif case["hometrash"] == "mount":
+            # a file system mounted exactly at the home trash directory: the directory exists, but
+            # it is the top of ANOTHER volume
+            vols = vols + [ht]
+            nodes.append({"p": ht, "t": "d", "m": 0o700})
         elif case["hometrash"] == "link_other":
             tgt = (other[0] if other and oracle.volume_of(vols, ht) != other[0] else
                    (other[-1] if other else "/")).rstrip("/") + "/real-home-trash"
@@ -200,6 +205,9 @@ def run_case(case):
         nodes.append({"p": fv + "/.Trash-%d" % uid, "t": "d", "m": 0o700})
     elif case["alt"] == "file":
         nodes.append({"p": fv + "/.Trash-%d" % uid, "t": "f", "c": "x"})
+    elif case["alt"] == "mount":
+        vols = vols + [fv + "/.Trash-%d" % uid]
+        nodes.append({"p": fv + "/.Trash-%d" % uid, "t": "d", "m": 0o700})
     elif case["alt"] == "link_other":
         tgt = (other[0] if other else "/elsewhere").rstrip("/") + "/alt-target"
         nodes.append({"p": tgt, "t": "d", "m": 0o700})
